@@ -116,7 +116,9 @@ fn check_break_assignment(context: &CheckerContext) -> GenericResult<()> {
 
         let total_break_count = actual_break_count + get_break_violation_count(&context.solution, tour);
 
-        if expected_break_count != total_break_count {
+        // NOTE a break which can be skipped according to its policy still can be assigned (or reported as violation)
+        let defined_break_count = vehicle_shift.breaks.iter().flat_map(|breaks| breaks.iter()).count();
+        if total_break_count < expected_break_count || total_break_count > defined_break_count {
             Err(format!(
                 "amount of breaks does not match, expected: '{}', got '{}' for vehicle '{}', shift index '{}'",
                 expected_break_count, total_break_count, tour.vehicle_id, tour.shift_index
